@@ -43,6 +43,13 @@ CLAIMED = {
             "mirror theorems (w,p,e) -> (e,p,w) incl. upwind boundary corrections and TVD for every limiter; redundant-axis theorems (stencil along a constant direction vanishes, kept "
             "directions coincide between Grid3D/2D/1D, Cylindrical3D/2D, Polar2D/Cylindrical1D, lifted solutions satisfy interior and ghost rows); shift invariance on uniform axes.",
             "§6 C08", "Known finding upwind-periodic-not-shift-invariant (boundary treatment of upwind at periodic faces)."),
+    "C09": ("Lean 4 proof by induction over operation histories of a state-machine model (content stamps) + history correspondence against the real objects",
+            "For EVERY finite history over the edit/solve alphabet (BC edits incl. silent in-place ones, value edits, update_value, apply_BCs, solvePDE, solveExplicitPDE, copy, "
+            "arithmetic, new variables on a shared BC object) the next solve uses boundary terms built from the current boundary conditions and the current interior "
+            "(solve_uses_current_bc, no side condition), cached terms and ghost layer are never stale unless the variable is flagged outdated (cacheOK_run, ghostOK_run), "
+            "copies get fresh BC objects and are independent in both directions, explicit results are usable by the implicit solver. The model is compared step by step "
+            "with the real objects (flags, sharing, decoded freshness of cache and ghost layer, solve == fresh start) on random and bounded-exhaustive histories.",
+            "§6 C09", "Counterexample theorems document the three repaired defects (shared BC object, explicit->implicit, copy of an outdated variable)."),
     "C10": (T, "Constructor laws for every strictly increasing face list of any length; (N,L) form = face form on equispaced faces; cellvolume = geometric volume per cell for 8 classes "
             "(annular sectors, shells), positivity, telescoping totals; SphericalGrid3D theta-factor proved NOT geometric over the reals (known finding).",
             "§6 C10", "Known finding sph3-cellvolume-theta-factor replayed every run."),
@@ -56,6 +63,11 @@ CLAIMED = {
             "For all 16 names, all r and eps>0: every denominator non-zero, value = published closed form (value 0 at removable singularities), psi(1)=1, 0<=psi<=min(2r,4) for r>0, "
             "clipping limiters vanish for r<=0, unknown names fall back to SUPERBEE, _fsign never returns 0 so every TVD ratio is defined.",
             "§6 C13", "Translator T-lim is trusted to render the Python expressions faithfully (cross-checked numerically each run)."),
+    "C16": ("Lean 4 `decide`/∀ theorems over decision tables GENERATED from mesh.py and face.py (translator T-err) and hand-written cascade models, compared exhaustively with the real code",
+            "Coordinate and component label tables generated from the property getters/setters equal the documented tables for all 9 classes x 12 labels x get/set; constructor arity "
+            "0..7 x both argument forms, term kinds, BoundaryFace coefficient types and all periodic-flag subsets follow the documented exception types; the initial-value shape "
+            "cascade is characterised for ALL ranks and extents (a real ∀ theorem). The real code's outcome is enumerated completely against these tables on every run.",
+            "§6 C16", "Right arity with wrong argument types (e.g. Grid1D(3)) is out of the property's scope and modelled as is."),
     "C17": (T, "Homogeneity of every metric quantity under length scaling (exponent table) and hence of every stencil, divergence, gradient, mean, source, transient, ghost value and boundary row; "
             "a solution of the system in one unit system, multiplied by K, solves the rescaled system, for any number of steps; TVD under an explicit outside-the-threshold-band hypothesis "
             "(counterexample inside the band); every term linear in its coefficient field (upwind at fixed direction).",
